@@ -6,6 +6,7 @@ import (
 	"sync"
 
 	"verif/harness/gen"
+	"verif/harness/mon"
 	"verif/harness/ref"
 )
 
@@ -94,5 +95,29 @@ func specFromProgram(p *program, outs []string) *modelSpec {
 				}
 			}
 			return feed
+		}}
+}
+
+// specFromOpReq wraps a single-node model built from a valid operator request
+// (the rich per-operator generators of C03..C11); initMask chooses which inputs
+// are initializers (weights) and which are supplied by the caller.
+func specFromOpReq(r *gen.R, req mon.OpReq, initMask uint64) *modelSpec {
+	for i, in := range req.Inputs { // complex / string tensors cannot be stored as initializers
+		if in != nil && (in.DT == ref.C64 || in.DT == ref.C128 || in.DT == ref.Str) {
+			initMask &^= 1 << uint(i)
+		}
+	}
+	g, feed := mon.BuildOpModel(req, mon.ModelOpts{InitMask: initMask, RawInits: r.Bool(), Truncate: r.Bool()})
+	var outs []string
+	for _, o := range g.Outputs {
+		outs = append(outs, o.Name)
+	}
+	return &modelSpec{Name: "single-node " + req.Op, Bytes: g.Bytes(), Outputs: outs,
+		Feed: func(_ *gen.R, _ int) map[string]*ref.T {
+			f := map[string]*ref.T{}
+			for k, v := range feed {
+				f[k] = v.Clone()
+			}
+			return f
 		}}
 }
